@@ -46,7 +46,8 @@ def parseSc (j : Json) : Rec Json :=
 
 def parseHd (j : Json) : Hd Json :=
   { ty := optStr j "type", fmt := optStr j "format", nullable := getBool j "nullable",
-    xnull := getBool j "x-nullable", disc := optStr j "discriminator",
+    xnull := getBool j "x-nullable",
+    disc := match optStr j "discriminator" with | some "" => none | o => o,   -- Go: the empty string is "absent"
     req := match j.getObjVal? "required" with | .ok (.arr a) => strs a.toList | _ => [],
     sc := parseSc j }
 
@@ -205,8 +206,6 @@ def respLosesSchema (produces : List String) : RRef2 Json → Bool
 
 def exclusions (d : Doc2 Json) : List String :=
   let ss := allSchemas d
-  (if ss.any hasDisc then ["DiscriminatorLost"] else []) ++
-  (if ss.any addlRef then ["AddlRefKept"] else []) ++
   (if ss.any addlImpure then ["AddlSubschemaUnconverted"] else []) ++
   (if ss.any (fun s => !noBinary2 s) ||
       ((opParams d) ++ (sharedVals d) ++ pathVals d ++ headerVals d).any (fun p => p.loc != "formData" && p.loc != "body" &&
